@@ -91,6 +91,13 @@ func regPrelude(pkg string) {
 		s.namedOrd = append(s.namedOrd, name)
 		return s.newByteSlice(cells, "vBytes "+name)
 	})
+	simple(p+"vHugeBytes", func(s *State, a []Value) Value {
+		n := s.asExpr(a[0])
+		id := s.newObject(nil, "vHugeBytes")
+		s.heap[id].Elem = types.Typ[types.Uint8]
+		s.heap[id].Virtual = true
+		return SliceV{Obj: id, Len: n, Cap: n}
+	})
 	simple(p+"vAssume", func(s *State, a []Value) Value {
 		s.assume(s.asExpr(a[0]))
 		return nil
